@@ -702,7 +702,7 @@ Section Post.
       let c2 := iset c1 "BatchCount" (Z.of_nat (length bs)) in
       let c3 := iset c2 "BlockCount" (block_count recs) in
       let c4 := iset c3 "EntryAddendaCount" cnt in
-      let c5 := iset c4 "EntryHash" (bsum "ADVControl" "EntryHash" bs) in
+      let c5 := iset c4 "EntryHash" (Z.rem (bsum "ADVControl" "EntryHash" bs) P10) in
       let c6 := iset c5 "TotalDebitEntryDollarAmountInFile" (bsum "ADVControl" "TotalDebitEntryDollarAmount" bs) in
       let c7 := iset c6 "TotalCreditEntryDollarAmountInFile" (bsum "ADVControl" "TotalCreditEntryDollarAmount" bs) in
       (set_kid f1 "ADVControl" [c7], true).
